@@ -65,6 +65,7 @@ type op struct {
 }
 
 type world struct {
+	bigDenoms []string // extra bank denominations of a "large registry" world
 	run   *vh.Run
 	rec   *recorder
 	label string
@@ -190,12 +191,24 @@ func newWorld(run *vh.Run, rec *recorder, label string, wi int) *world {
 	w.prober, w.proposer = vh.NewAcct(r), vh.NewAcct(r)
 	w.realDenoms = []string{vh.SecondDenom, "ibc/" + strings.ToUpper(fmt.Sprintf("%x", r.Bytes(32))), fmt.Sprintf("gamm/pool/%d", 1+r.Intn(900)), "x" + randLower(r, 3+r.Intn(8))}
 	w.zeroDenom = "uzero" + randLower(r, 3)
+	// one world in sixteen grows a registry of more than 100 contracts (the default page size of the SDK's paginated
+	// store walks): every registered contract must stay callable however many there are
+	if wi%16 == 2 {
+		for i := 0; i < 108; i++ {
+			w.bigDenoms = append(w.bigDenoms, fmt.Sprintf("big%03d%s", i, randLower(r, 2)))
+		}
+	}
 	var accs []vh.GenAccount
 	for i, u := range w.users {
 		coins := vh.NativeCoins(1000)
 		for j, d := range w.realDenoms {
 			if (i+j)%3 == 0 {
 				coins = coins.Add(sdk.NewCoin(d, sdkmath.NewInt(int64(1000+r.Intn(1_000_000)))))
+			}
+		}
+		if i == 0 {
+			for _, d := range w.bigDenoms {
+				coins = coins.Add(sdk.NewCoin(d, sdkmath.NewInt(int64(1+r.Intn(1000)))))
 			}
 		}
 		accs = append(accs, vh.GenAccount{Addr: u.Addr, Coins: coins})
@@ -278,6 +291,21 @@ func (w *world) play(txTarget int) {
 	}
 	w.run.Count("scans", 1)
 	w.probeRound("genesis", nil)
+	if len(w.bigDenoms) > 0 && len(w.genesisWL) > 0 {
+		if dep := w.byBech[w.genesisWL[0]]; dep != nil {
+			for i := 0; i < len(w.bigDenoms); i += 6 {
+				var ops []*op
+				for j := i; j < i+6 && j < len(w.bigDenoms); j++ {
+					m := &cpctypes.MsgDeployErc20ContractRequest{Authority: dep.Bech32(), Name: w.freshName(), Symbol: strings.ToUpper(randLower(w.r, 3)), Decimals: 6, MinDenom: w.bigDenoms[j]}
+					ops = append(ops, w.cosmosOp("deploy-erc20", dep, w.signerClass(dep), "denom:fresh+bulk", true, m))
+				}
+				w.runBlock(ops)
+				w.step++
+			}
+			w.run.Max("largest_registry", int64(len(w.prev.Records)))
+			w.probeRound("after-bulk-registration", nil)
+		}
+	}
 	nextProbe := w.txCount + 12 + w.r.Intn(10)
 	for w.txCount < txTarget {
 		before := len(w.prev.Records)
